@@ -235,6 +235,21 @@ CHECKS = [
                 "urwid 2.6.16 and its canvas cache; after an explicit clear_images() only left-over images are judged "
                 "until the next full repaint (missing ones are unspecified); clear_images(now=True) not covered.",
     },
+    {
+        "property_id": "C11",
+        "technique": "model-based testing of generated operation histories with k-th-call PIL fault injection; twin-image differential for frames; /proc/self/fd and temp-dir resource invariants",
+        "text": "Generated histories (<= 12 ops) over file / caller-PIL / loopback-URL sources (incl. 404 and non-image "
+                "bodies), animated GIF/WEBP and still images, all three styles and format specs, iterators with every "
+                "repeat/cached setting, seeks, early close, abandonment+gc, image.close / with, size changes and "
+                "terminal resizes, optionally one PIL call failing at an index enumerated by a dry run; a "
+                "documentation-derived iterator model predicts frames numbers, tell(), loop_no and errors; every "
+                "yielded frame equals format() of a twin image at that frame; after every op the image-file "
+                "descriptors, the library temp dir, the caller's PIL image and the size setting are checked.",
+        "note": "Trusts CPython refcounting, /proc/self/fd, Pillow (APNG excluded because of a Pillow 11.1 rewind bug), "
+                "requests/http.server on loopback; closes that rely on garbage collection of never-started iterators "
+                "are tolerated and counted; iterm2 '+A' inside iterators is compared to '+W' up to the documented "
+                "fallback.",
+    },
 ]
 
 NOT_APPLICABLE = [
